@@ -149,9 +149,13 @@ def _meq(x, y):
 def variant_map(rng, m):
     if m is None:
         return None
-    k = rng.randrange(4)
+    k = rng.randrange(5)
     items = list(m.items())
     rng.shuffle(items)
+    if k == 4:
+        class S(str):
+            pass
+        return {S(a): (S(b) if rng.random() < .5 else b) for a, b in items}
     if k == 0:
         return dict(items)
     if k == 1:
@@ -278,11 +282,33 @@ def run_unit(u):
         if st2 != 'ok' or not (c1 == c2 and hash(c1) == hash(c2)):
             viol('compile(%r, custom=%r) after a transient failure (%s) differs from a fresh parse' % (pat, cu, how_), pat, 'transient-diff-' + how_)
 
+    COLLIDING = [{':--a': 'p', ':--\\61': 'div'}, {':--Item': 'p', ':--ITEM': 'div'}, {':--item': 'p', ':--ITEM': 'div', ':--z': 'b'},
+                 {':--\\49tem': 'p', ':--i\\54 em': 'div'}, {':--ok': 'p', ':--\\6fk': 'p'}, {':--A': 'p', ':--b': ':--a, div'}]
+
+    def ordering(k):
+        """Equal maps in different insertion orders are equal arguments: the outcomes must be the same - the same exception
+        type from both, or equal objects (names that are equal after unescaping and ASCII lower-casing collide in every order)."""
+        m = COLLIDING[k % len(COLLIDING)]
+        pat = rng.choice([':--a', ':--item', ':--ok, i', 'i', ':--b'])
+        outs = []
+        for items in (list(m.items()), list(reversed(list(m.items())))):
+            sv.purge()
+            st_, c_ = monitors.guarded_call(sv.compile, pat, custom=dict(items))
+            outs.append((st_, type(c_).__name__ if st_ == 'raise' else c_))
+        bump('map_orderings')
+        (s1, o1), (s2, o2) = outs
+        if s1 != s2 or (s1 == 'raise' and o1 != o2) or (s1 == 'ok' and not (o1 == o2 and hash(o1) == hash(o2))):
+            viol('compile(%r, custom=%r) depends on the insertion order of the map: %s vs %s' % (
+                pat, m, o1 if s1 == 'raise' else 'compiled', o2 if s2 == 'raise' else 'compiled' + ('' if s1 != 'ok' else ' (unequal)')), pat, 'map-order')
+
     if u['kind'] == 'values':
         for _k in range(u['n']):
             if _k % 10 == 0:
                 sv.purge()
                 transient(_k // 10)
+            if _k % 10 == 5:
+                ordering(_k // 10)
+                sv.purge()
             a = args(rng)
             st, c = monitors.guarded_call(comp, a)
             if st != 'ok':
@@ -416,7 +442,14 @@ def run_unit(u):
             # --- pass-through of compiled objects
             if sv.compile(c) is not c:
                 viol('compile(compiled) is not the identity', a[0], 'passthrough')
-            for kw in ({'namespaces': {}}, {'namespaces': {'a': 'b'}}, {'flags': sv.DEBUG}, {'custom': {}}, {'custom': {':--x': 'p'}}):
+            own = []
+            if c.namespaces is not None:
+                own += [{'namespaces': c.namespaces}, {'namespaces': dict(c.namespaces)}]
+            if c.custom is not None:
+                own += [{'custom': c.custom}, {'custom': dict(c.custom)}]
+            if c.flags:
+                own += [{'flags': c.flags}]
+            for kw in [{'namespaces': {}}, {'namespaces': {'a': 'b'}}, {'flags': sv.DEBUG}, {'custom': {}}, {'custom': {':--x': 'p'}}] + own:
                 try:
                     sv.compile(c, **kw)
                     viol('compile(compiled, %r) did not reject the extra argument' % (kw,), a[0], 'passthrough-extra:' + repr(sorted(kw)) + repr(bool(list(kw.values())[0])))
